@@ -70,10 +70,11 @@ Theorem C16_malformed : forall d, dialect d ->
      good_str d s = true -> all_space ws = true -> py_isspace c = false -> c <> 35%N ->
      parse_line (ws0 ++ key ++ ws1 ++ [61%N] ++ ws2 ++ (d ++ s ++ d) ++ ws ++ c :: rest) d = Err EPhoenix)
   /\
-  (* a bare token (possibly empty) that none of int(s), int(s,16), float(s) accepts *)
+  (* a bare text (possibly empty, possibly with inner blanks: a number followed by junk) that none of
+     int(s), int(s,16), float(s) accepts *)
   (forall ws0 key ws1 ws2 tok ws3 comment,
      all_space ws0 = true -> all_space ws1 = true -> all_space ws2 = true -> all_space ws3 = true ->
-     good_key d key = true -> forallb tok_char tok = true ->
+     good_key d key = true -> bare_text tok = true ->
      is_ok (py_int tok) = false -> is_ok (py_int16 tok) = false -> is_ok (py_float tok) = false ->
      parse_line (render_line ws0 key ws1 ws2 tok ws3 comment) d = Err EPhoenix).
 Proof. exact malformed. Qed.
@@ -94,12 +95,14 @@ Proof.
   apply (proj1 (proj2 (proj2 (C16_malformed DELIM2 (or_introl eq_refl)))) [] ex_key2 [32]%N [32]%N ex_str2 [32]%N 120%N);
     try reflexivity. discriminate.
 Qed.
-Example C16_malformed_bare :             (* key = --1 # comment ;  key =      (empty value) *)
+Example C16_malformed_bare :             (* key = --1 # comment ;  key =   (empty value) ;  key = 2500 ms # comment *)
   parse_line (render_line [] ex_key1 [32] [32] ex_bad_tok [32] (Some ex_comment)) DELIM1 = Err EPhoenix
-  /\ parse_line (render_line [] ex_key1 [32] [32] [] [32] None) DELIM2 = Err EPhoenix.
+  /\ parse_line (render_line [] ex_key1 [32] [32] [] [32] None) DELIM2 = Err EPhoenix
+  /\ parse_line (render_line [] ex_key1 [32] [32] [50; 53; 48; 48; 32; 109; 115] [32] (Some ex_comment)) DELIM2 = Err EPhoenix.
 Proof.
-  split.
+  split; [|split].
   - apply (proj2 (proj2 (proj2 (C16_malformed DELIM1 (or_intror eq_refl))))); reflexivity.
+  - apply (proj2 (proj2 (proj2 (C16_malformed DELIM2 (or_introl eq_refl))))); reflexivity.
   - apply (proj2 (proj2 (proj2 (C16_malformed DELIM2 (or_introl eq_refl))))); reflexivity.
 Qed.
 
